@@ -919,3 +919,185 @@ Proof.
   cbn zeta. destruct (cinv x <=? cresp y) eqn:E; [|reflexivity].
   apply Z.leb_le. apply (upper_concurrent c calls l); auto. lia.
 Qed.
+
+(* ---------- the limiter map: syncing by name keeps an unchanged schema's bucket ---------- *)
+Lemma alookup_aremove_other {A} (k n : string) : k <> n -> forall (l : list (string * A)),
+  alookup k (aremove n l) = alookup k l.
+Proof.
+  intros Hne. induction l as [|[k2 v] r IH]; [reflexivity|]. simpl.
+  destruct (String.eqb n k2) eqn:E2.
+  - apply String.eqb_eq in E2. subst k2. destruct (String.eqb k n) eqn:E; [apply String.eqb_eq in E; congruence|exact IH].
+  - simpl. destruct (String.eqb k k2); [reflexivity|exact IH].
+Qed.
+
+Lemma alookup_aset_same {A} k (v : A) l : alookup k (aset k v l) = Some v.
+Proof. unfold aset; simpl. rewrite String.eqb_refl. reflexivity. Qed.
+
+Lemma alookup_aset_other {A} k n (v : A) l : k <> n -> alookup k (aset n v l) = alookup k l.
+Proof.
+  intros Hne. unfold aset; simpl. destruct (String.eqb k n) eqn:E; [apply String.eqb_eq in E; congruence|].
+  apply alookup_aremove_other; exact Hne.
+Qed.
+
+Lemma alookup_not_in {A} k : forall (l : list (string * A)), ~ In k (map fst l) -> alookup k l = None.
+Proof.
+  induction l as [|[k2 v] r IH]; intros H; [reflexivity|]. simpl in *.
+  destruct (String.eqb k k2) eqn:E; [apply String.eqb_eq in E; subst; exfalso; apply H; left; reflexivity|].
+  apply IH. intros Hin; apply H; right; exact Hin.
+Qed.
+
+Lemma alookup_in {A} k : forall (l : list (string * A)) v, alookup k l = Some v -> In k (map fst l).
+Proof.
+  induction l as [|[k2 v2] r IH]; intros v H; [discriminate|]. simpl in *.
+  destruct (String.eqb k k2) eqn:E; [apply String.eqb_eq in E; left; congruence|right; exact (IH _ H)].
+Qed.
+
+Lemma sync_entries_other name : forall spec m, ~ In name (map fst spec) ->
+  alookup name (sync_entries m spec) = alookup name m.
+Proof.
+  induction spec as [|[n sc] r IH]; intros m H; [reflexivity|]. simpl in *.
+  rewrite IH by (intros Hin; apply H; right; exact Hin).
+  unfold sync_one. apply alookup_aset_other. intros ->. apply H. left; reflexivity.
+Qed.
+
+Lemma sync_entries_tb name q b rt : forall spec m, NoDup (map fst spec) ->
+  alookup name spec = Some (STb q b) -> alookup name m = Some (Some rt) ->
+  alookup name (sync_entries m spec) = Some (Some (fst (rtb_step rt (OResize q b)))).
+Proof.
+  induction spec as [|[n sc] r IH]; intros m Hnd Hs Hm; [discriminate|].
+  simpl in Hnd. inversion Hnd as [|? ? Hn Hr]; subst. simpl in Hs. cbn [sync_entries].
+  destruct (String.eqb name n) eqn:E.
+  - apply String.eqb_eq in E. subst n. injection Hs as ->.
+    rewrite (sync_entries_other name r _ Hn). unfold sync_one. rewrite alookup_aset_same.
+    f_equal. unfold entry in *. rewrite Hm. reflexivity.
+  - apply IH; [exact Hr|exact Hs|].
+    unfold sync_one. rewrite alookup_aset_other; [exact Hm|]. intros ->. rewrite String.eqb_refl in E. discriminate.
+Qed.
+
+Lemma sync_entries_new name q b : forall spec m, NoDup (map fst spec) ->
+  alookup name spec = Some (STb q b) -> alookup name m = None ->
+  alookup name (sync_entries m spec) = Some (Some (rtb_new q b)).
+Proof.
+  induction spec as [|[n sc] r IH]; intros m Hnd Hs Hm; [discriminate|].
+  simpl in Hnd. inversion Hnd as [|? ? Hn Hr]; subst. simpl in Hs. cbn [sync_entries].
+  destruct (String.eqb name n) eqn:E.
+  - apply String.eqb_eq in E. subst n. injection Hs as ->.
+    rewrite (sync_entries_other name r _ Hn). unfold sync_one. rewrite alookup_aset_same.
+    f_equal. unfold entry in *. rewrite Hm. reflexivity.
+  - apply IH; [exact Hr|exact Hs|].
+    unfold sync_one. rewrite alookup_aset_other; [exact Hm|]. intros ->. rewrite String.eqb_refl in E. discriminate.
+Qed.
+
+Lemma fold_aremove_other {A} name : forall (del : list string) (m : list (string * A)), ~ In name del ->
+  alookup name (fold_left (fun m n => aremove n m) del m) = alookup name m.
+Proof.
+  induction del as [|n r IH]; intros m H; [reflexivity|]. simpl.
+  rewrite IH by (intros Hin; apply H; right; exact Hin).
+  apply alookup_aremove_other. intros ->. apply H. left; reflexivity.
+Qed.
+
+Lemma spec_eqb_lookup name q b : forall a s, spec_eqb a s = true -> alookup name s = Some (STb q b) ->
+  alookup name a = Some (STb q b).
+Proof.
+  unfold spec_eqb. induction a as [|[k1 s1] a IH]; intros [|[k2 s2] s] He Hl; simpl in *; try discriminate.
+  apply Bool.andb_true_iff in He as (He1 & He2). apply Bool.andb_true_iff in He1 as (Hk & Hs).
+  apply String.eqb_eq in Hk. subst k2. destruct (String.eqb name k1); [|exact (IH _ He2 Hl)].
+  injection Hl as ->. destruct s1 as [q1 b1|k]; simpl in Hs; [|discriminate].
+  assert (q1 = q /\ b1 = b) as (-> & ->) by lia. reflexivity.
+Qed.
+
+(* the schema under test as the limiter map holds it *)
+Definition holds (u : ulim) (name : string) (r : rtb) : Prop :=
+  alookup name (umap u) = Some (Some r) /\
+  alookup name (uspec u) = Some (STb (qps (rc r)) (burst (rc r))).
+
+Definition sync_ok (name : string) (spec : fcspec) : Prop :=
+  NoDup (map fst spec) /\ exists q b, alookup name spec = Some (STb q b).
+
+Definition proj_op (name : string) (o : uop) : op :=
+  match o with
+  | UTry t => OTry t
+  | USync spec => match alookup name spec with Some (STb q b) => OResize q b | _ => OResize 0 0 end
+  end.
+
+Lemma usync_holds u name r spec q b : holds u name r -> NoDup (map fst spec) ->
+  alookup name spec = Some (STb q b) ->
+  holds (usync u spec) name (fst (rtb_step r (OResize q b))).
+Proof.
+  intros (Hm & Hs) Hnd Hl. unfold usync. destruct (spec_eqb (uspec u) spec) eqn:E.
+  - pose proof (spec_eqb_lookup name q b _ _ E Hl) as Ha. rewrite Ha in Hs. injection Hs as -> ->.
+    cbn [rtb_step]. rewrite !Z.eqb_refl. cbn [andb fst]. split; [exact Hm|exact Ha].
+  - split; cbn [umap uspec].
+    + rewrite fold_aremove_other.
+      * apply sync_entries_tb; assumption.
+      * intros Hin. apply filter_In in Hin as (_ & Hf).
+        assert (str_mem name (map fst spec) = true) by (apply str_mem_In; exact (alookup_in name spec _ Hl)).
+        rewrite H in Hf. discriminate.
+    + rewrite Hl. cbn [rtb_step]. destruct ((qps (rc r) =? q) && (burst (rc r) =? b))%bool eqn:Eq; cbn [fst].
+      * assert (qps (rc r) = q /\ burst (rc r) = b) as (-> & ->) by lia. reflexivity.
+      * reflexivity.
+Qed.
+
+(* C06_sync_by_name: whatever happens to the siblings, the requests for [name] are decided exactly as by
+   its own bucket, for which a re-sync is a Resize to the values of the new spec (no-op when unchanged) *)
+Lemma sync_by_name name : forall ops u r, holds u name r ->
+  Forall (fun o => match o with USync spec => sync_ok name spec | UTry _ => True end) ops ->
+  urun u name ops = rtb_tries r (map (proj_op name) ops).
+Proof.
+  induction ops as [|o rest IH]; intros u r Hh Ho; [reflexivity|].
+  inversion Ho as [|? ? Ho1 Ho2]; subst. destruct o as [now|spec].
+  - cbn [urun map proj_op rtb_tries]. destruct Hh as (Hm & Hs). unfold utry. rewrite Hm.
+    destruct (rtb_step r (OTry now)) as [r' ok] eqn:E. f_equal. apply IH; [|exact Ho2].
+    split; cbn [umap uspec]; [apply alookup_aset_same|].
+    cbn [rtb_step] in E. destruct (allow_n (rc r) (rs r) now 1) as [s' ok']. injection E as <- _. exact Hs.
+  - destruct Ho1 as (Hnd & q & b & Hl). cbn [urun map proj_op rtb_tries]. rewrite Hl.
+    apply IH; [apply usync_holds; assumption|exact Ho2].
+Qed.
+
+Lemma first_sync_holds name spec q b : NoDup (map fst spec) -> alookup name spec = Some (STb q b) ->
+  holds (usync ulim_new spec) name (rtb_new q b).
+Proof.
+  intros Hnd Hl. unfold usync, ulim_new. cbn [uspec umap].
+  destruct (spec_eqb [] spec) eqn:E.
+  - destruct spec; [discriminate|discriminate].
+  - split; cbn [umap uspec].
+    + cbn [map filter fold_left]. apply sync_entries_new; auto.
+    + exact Hl.
+Qed.
+
+Definition try_decisions (tr : list (op * bool)) : list bool :=
+  flat_map (fun p => match fst p with OTry _ => [snd p] | OResize _ _ => [] end) tr.
+
+Lemma rtb_tries_model_tr : forall ops r, rtb_tries r ops = try_decisions (model_tr r ops).
+Proof.
+  induction ops as [|o rest IH]; intros r; [reflexivity|]. rewrite model_tr_cons. destruct o as [now|q b].
+  - cbn [rtb_tries try_decisions flat_map fst snd]. destruct (rtb_step r (OTry now)) as [r' ok]. cbn [fst snd app].
+    f_equal. apply IH.
+  - cbn [rtb_tries try_decisions flat_map fst snd app]. apply IH.
+Qed.
+
+Definition usync_std (name : string) (o : uop) : Prop :=
+  match o with
+  | UTry t => 0 <= t
+  | USync spec => NoDup (map fst spec) /\ exists q b, alookup name spec = Some (STb q b) /\ cfg_std {| qps := q; burst := b |}
+  end.
+
+(* C06_sync_windows: a cluster with any sibling schemas, any sequence of requests for [name] and re-syncs
+   of the whole spec.  The decisions are those of the schema's own bucket, whose history (re-sync = Resize
+   to the spec's values) splits into stretches between EFFECTIVE reconfigurations of [name] only — a re-sync
+   that changes, adds or removes siblings does not end a stretch — and every stretch satisfies the three
+   clauses of the spec *)
+Lemma sync_windows name spec0 q b ops : NoDup (map fst spec0) -> alookup name spec0 = Some (STb q b) ->
+  cfg_std {| qps := q; burst := b |} -> Forall (usync_std name) ops ->
+  let pops := map (proj_op name) ops in
+  let tr := model_tr (rtb_new q b) pops in
+  urun (usync ulim_new spec0) name ops = try_decisions tr /\
+  let segs := segments {| qps := q; burst := b |} [] tr in
+  all_segments closed_ok segs = true /\ all_segments open_ok segs = true /\ all_segments lower_ok segs = true.
+Proof.
+  intros Hnd Hl Hc Ho. cbn zeta. split.
+  - rewrite <- rtb_tries_model_tr. apply sync_by_name; [apply first_sync_holds; assumption|].
+    eapply Forall_impl; [|exact Ho]. intros [t|spec]; simpl; [auto|]. intros (H1 & q' & b' & H2 & _). split; eauto.
+  - apply history_ok; [exact Hc|]. apply Forall_map. eapply Forall_impl; [|exact Ho].
+    intros [t|spec]; simpl; [auto|]. intros (H1 & q' & b' & H2 & H3). rewrite H2. exact H3.
+Qed.
